@@ -105,18 +105,28 @@ impl CliWorld {
       }
     }
     if self.with_tests {
-      std::fs::create_dir_all(root.join("rule-tests")).expect("mkdir");
-      for r in self.all_rules() {
-        if r.severity.as_deref() == Some("off") {
-          continue;
-        }
-        w(&format!("rule-tests/{}-test.yml", r.id), r.test_yaml().as_bytes());
-      }
+      self.write_tests(root, false);
     }
     if let Some(ig) = &self.ignore_file {
       w(".ignore", ig.as_bytes());
     }
     self.write_sources(root);
+  }
+
+  /// Rule tests; `partial`: rules with several invalid cases get only the first one (an
+  /// earlier state of the test files, so that a later `test -U` is an incremental update).
+  pub fn write_tests(&self, root: &Path, partial: bool) {
+    std::fs::create_dir_all(root.join("rule-tests")).expect("mkdir");
+    for r in self.all_rules() {
+      if r.severity.as_deref() == Some("off") {
+        continue;
+      }
+      let mut r2 = (*r).clone();
+      if partial && r2.invalid.len() >= 2 {
+        r2.invalid.truncate(1);
+      }
+      std::fs::write(root.join(format!("rule-tests/{}-test.yml", r.id)), r2.test_yaml()).expect("write test");
+    }
   }
 
   pub fn write_sources(&self, root: &Path) {
